@@ -2,8 +2,10 @@ package props
 
 import (
 	"bytes"
+	"crypto/cipher"
 	"errors"
 	"fmt"
+	"reflect"
 	"testing"
 
 	"github.com/free5gc/ike/security"
@@ -32,17 +34,46 @@ type c02In struct {
 	Exts      []model.Bytes `json:"extensions"` // octets appended
 	AllFlips  bool          `json:"all_flips"`
 	Warm      bool          `json:"receiver_has_accepted_the_genuine_message_before"`
+	// Large: a message of several KiB; alterations are sampled instead of enumerated
+	Large bool `json:"large_message,omitempty"`
+	// BlockSpy: the receiver's cipher objects are the library's own, with a spy installed as their AES block (instead of a
+	// spy wrapped around the IKECrypto interface)
+	BlockSpy bool `json:"spy_at_block_level,omitempty"`
 }
 
 // spySA builds a receiver SA whose cipher and integrity objects are spies sharing one log.
 func spySA(s bridge.SuiteSel, k bridge.KeySet) (*security.IKESAKey, *probe.Log, error) {
+	return spySAMode(s, k, false)
+}
+
+// installBlockSpy replaces the exported cipher.Block field of the library's cipher object (looked up by reflection, so that
+// a cipher type without such a field simply is not spied on at that level); reports whether it could.
+func installBlockSpy(c any, name string, log *probe.Log) bool {
+	v := reflect.ValueOf(c)
+	if v.Kind() != reflect.Ptr || v.IsNil() || v.Elem().Kind() != reflect.Struct {
+		return false
+	}
+	blockT := reflect.TypeOf((*cipher.Block)(nil)).Elem()
+	for i := 0; i < v.Elem().NumField(); i++ {
+		f := v.Elem().Field(i)
+		if f.Type() == blockT && f.CanSet() && !f.IsNil() {
+			f.Set(reflect.ValueOf(&probe.SpyBlock{Name: name, Inner: f.Interface().(cipher.Block), Log: log}))
+			return true
+		}
+	}
+	return false
+}
+
+func spySAMode(s bridge.SuiteSel, k bridge.KeySet, blockLevel bool) (*security.IKESAKey, *probe.Log, error) {
 	sa, err := bridge.NewSA(s, k)
 	if err != nil {
 		return nil, nil, err
 	}
 	log := &probe.Log{}
-	sa.Encr_i = &probe.SpyCrypto{Name: "Encr_i", Inner: sa.Encr_i, Log: log}
-	sa.Encr_r = &probe.SpyCrypto{Name: "Encr_r", Inner: sa.Encr_r, Log: log}
+	if !blockLevel || !installBlockSpy(sa.Encr_i, "Encr_i", log) || !installBlockSpy(sa.Encr_r, "Encr_r", log) {
+		sa.Encr_i = &probe.SpyCrypto{Name: "Encr_i", Inner: sa.Encr_i, Log: log}
+		sa.Encr_r = &probe.SpyCrypto{Name: "Encr_r", Inner: sa.Encr_r, Log: log}
+	}
 	sa.Integ_i = &probe.SpyHash{Name: "Integ_i", Inner: sa.Integ_i, Log: log}
 	sa.Integ_r = &probe.SpyHash{Name: "Integ_r", Inner: sa.Integ_r, Log: log}
 	return sa, log, nil
@@ -64,7 +95,7 @@ func (cx *c02Ctx) tryAltered(x []byte, class string, keys bridge.KeySet, recvI b
 		modes = append(modes, true)
 	}
 	for _, withHdr := range modes {
-		sa, log, err := spySA(cx.in.Suite, keys)
+		sa, log, err := spySAMode(cx.in.Suite, keys, cx.in.BlockSpy)
 		if err != nil {
 			return fmt.Errorf("HARNESS: %v", err)
 		}
@@ -143,7 +174,7 @@ func c02Oracle(in c02In) probe.Outcome {
 
 	// the genuine message: accepted, MAC over the received bytes verified before the one Decrypt call
 	for _, withHdr := range []bool{false, true} {
-		sa, log, err := spySA(in.Suite, in.Keys)
+		sa, log, err := spySAMode(in.Suite, in.Keys, in.BlockSpy)
 		if err != nil {
 			return probe.Fail("HARNESS: %v", err)
 		}
@@ -220,7 +251,13 @@ func c02Oracle(in c02In) probe.Outcome {
 		if !in.AllFlips && region == "ciphertext" && i%7 != 0 {
 			continue
 		}
+		if in.Large && region == "ciphertext" && i%251 != 0 && i < len(w)-icv-32 {
+			continue // large message: every 251st ciphertext octet and the last two blocks
+		}
 		for b := 0; b < 8; b++ {
+			if in.Large && b != i%8 {
+				continue // one bit per octet
+			}
 			x := append([]byte(nil), w...)
 			x[i] ^= 1 << uint(b)
 			if err := cx.tryAltered(x, "flip:"+region, in.Keys, recvI); err != nil {
@@ -235,6 +272,9 @@ func c02Oracle(in c02In) probe.Outcome {
 			if len(w) <= at || byte(v) == w[at] {
 				continue
 			}
+			if in.Large && !(v <= 1 || (v >= 32 && v <= 50) || v >= 254) {
+				continue // large message: the payload type codes, their neighbours and the extremes
+			}
 			x := append([]byte(nil), w...)
 			x[at] = byte(v)
 			if err := cx.tryAltered(x, "type-octet", in.Keys, recvI); err != nil {
@@ -247,6 +287,9 @@ func c02Oracle(in c02In) probe.Outcome {
 		if !in.AllFlips && l > 64 && l < len(w)-40 && l%5 != 0 {
 			continue
 		}
+		if in.Large && l > 64 && l < len(w)-40 && l%499 != 0 {
+			continue
+		}
 		if err := cx.tryAltered(w[:l], "prefix", in.Keys, recvI); err != nil {
 			return fail(fmt.Errorf("prefix of %d octets: %w", l, err))
 		}
@@ -254,6 +297,9 @@ func c02Oracle(in c02In) probe.Outcome {
 	// (b') truncation with the SK payload length (and the header length) re-framed to the shorter datagram
 	for l := 32; l < len(w); l++ {
 		if !in.AllFlips && l > 80 && l < len(w)-40 && l%5 != 0 {
+			continue
+		}
+		if in.Large && l > 80 && l < len(w)-40 && l%499 != 0 {
 			continue
 		}
 		x := append([]byte(nil), w[:l]...)
@@ -291,6 +337,12 @@ func c02Oracle(in c02In) probe.Outcome {
 		}
 		gen.FixHeaderLength(x)
 		if err := cx.tryAltered(x, "extension:wellformed-payload+length", in.Keys, recvI); err != nil {
+			return fail(err)
+		}
+	}
+	// an extension that is itself a genuine message of the same SA (two datagrams glued together, or the same one twice)
+	for _, tail := range [][]byte{w2, w} {
+		if err := cx.tryAltered(append(append([]byte(nil), w...), tail...), "extension:genuine-message", in.Keys, recvI); err != nil {
 			return fail(err)
 		}
 	}
@@ -373,6 +425,12 @@ func c02Oracle(in c02In) probe.Outcome {
 	if in.Warm {
 		labels = append(labels, "receiver-accepted-the-genuine-message-first")
 	}
+	if in.Large {
+		labels = append(labels, fmt.Sprintf("large-message:>=%dKiB", len(w)/1024))
+	}
+	if in.BlockSpy {
+		labels = append(labels, "spy:block-level")
+	}
 	return probe.Outcome{NonTrivial: true, Labels: labels, Counts: counts}
 }
 
@@ -408,10 +466,17 @@ var c02Tamper = probe.Define("C02", "tamper", func(t *rapid.T) c02In {
 	}
 	in.AllFlips = model.ChainSize(in.Msg.Payloads) <= 300
 	in.Warm = rapid.Bool().Draw(t, "warm")
+	in.BlockSpy = rapid.Bool().Draw(t, "blockspy")
+	if rapid.IntRange(0, 5).Draw(t, "large") == 5 {
+		// a message of 1..12 KiB (fragment-sized certificates, configuration payloads): alterations are sampled
+		in.Large, in.AllFlips = true, false
+		n := rapid.SampledFrom([]int{1100, 2000, 4100, 8300, 12000}).Draw(t, "largesize")
+		in.Msg.Payloads = append([]model.Payload{{Kind: model.KVendor, Data: gen.Fill(t, "largedata", n)}}, in.Msg.Payloads...)
+	}
 	return in
 }, c02Oracle)
 
 func TestC02(t *testing.T) {
 	c := probe.NewCtx(t, "C02")
-	c02Tamper.Run(c, t, c.N(120, 1200))
+	c02Tamper.Run(c, t, c.N(100, 1000))
 }
